@@ -830,6 +830,8 @@ def _get_spans_for_index_string_field(indices,values):
     """
     result = []
     result.append(0)
+    if len(indices) < 2:
+        return result  # no rows (an empty field may have no index entries at all)
     for i in range(1, len(indices) - 1):
         last = indices[i - 1]
         current = indices[i]
